@@ -310,6 +310,7 @@ func runC07(c *Ctx) {
 	checkIdentityMergeComparesCommits(c)
 	checkArrayIndexBoundsIn(c, "R7.14", "entity, entities, repository, util", []string{"entity", "entities", "repository", "util"})
 	checkIdMethodsTotal(c, "R7.15")
+	checkValidateAccumulatesAfterTest(c, "R9.4")
 	roots := dataEntryPoints(w)
 	if len(roots) < 15 {
 		c.Violate("R7.1", "expected:entry-points", "module", fmt.Sprintf("only %d entry points resolved (reference ≥ 15)", len(roots)))
